@@ -52,6 +52,9 @@ func mkDescriptor(v c19Val) scte35.SegmentationDescriptor {
 	if v.HasPTS {
 		cmd.SetHasPTS(true)
 		sig.SetPTS(gots.PTS(v.PTS))
+	} else if v.PTS != 0 {
+		// a signal whose command carries no time but whose PTS() is not zero (only a pts_adjustment)
+		sig.SetAdjustPTS(gots.PTS(v.PTS))
 	}
 	d := scte35.CreateSegmentationDescriptor()
 	d.SetEventID(v.Event)
@@ -112,6 +115,8 @@ func mkDescriptorAdjusted(v c19Val) scte35.SegmentationDescriptor {
 			sec.CmdType = ref.S35CmdTime
 			sec.Time = ref.S35Time{Specified: true, PTS: t}
 			sec.PTSAdj = c19Adj
+		} else {
+			sec.PTSAdj = v.PTS // splice_null: PTS() is the bare adjustment
 		}
 		sec.Descs = []ref.S35Desc{{IsSeg: true, Tag: ref.S35SegTag, Identifier: ref.S35CUEI, Seg: ref.S35Seg{EventID: v.Event, Program: true, NotRestricted: true,
 			TypeID: uint8(v.Type), SegNum: v.Num, SegsExpected: v.Exp, HasSub: v.Sub, SubNum: v.SubNum, SubExpected: v.SubExp}}}
@@ -167,6 +172,9 @@ func c19Build(vals []c19Val) *c19Grid {
 	g := &c19Grid{vals: vals}
 	for i, v := range vals {
 		g.a = append(g.a, mkDescriptor(v))
+		if sig := g.a[i].SCTE35(); uint64(sig.PTS()) != v.PTS || sig.HasPTS() != v.HasPTS {
+			panic(fmt.Sprintf("c19: descriptor built for %+v reports PTS %d HasPTS %v", v, sig.PTS(), sig.HasPTS()))
+		}
 		g.b = append(g.b, mkDescriptorMoved(v))
 		g.c = append(g.c, mkDescriptorAdjusted(v))
 		for k := range g.r {
@@ -187,12 +195,14 @@ func c19CloseGrid() *c19Grid {
 		var vals []c19Val
 		for t := 0; t < 256; t++ {
 			for _, ev := range []uint32{1, 2} {
-				for _, p := range []int{100, 200, -1} {
+				for _, p := range []int{100, 200, -1, -200} {
 					for _, ne := range [][2]uint8{{1, 1}, {1, 2}, {2, 1}} {
 						for _, sub := range [][3]uint8{{0, 0, 0}, {1, 1, 1}, {1, 1, 2}} {
 							v := c19Val{Type: t, Event: ev, HasPTS: p >= 0, Num: ne[0], Exp: ne[1], Sub: sub[0] == 1, SubNum: sub[1], SubExp: sub[2]}
 							if p >= 0 {
 								v.PTS = uint64(p)
+							} else if p < -1 {
+								v.PTS = uint64(-p) // no time in the command, yet PTS() reports the adjustment
 							}
 							vals = append(vals, v)
 						}
@@ -209,7 +219,7 @@ func c19EqGrid() *c19Grid {
 	c19EqOnce.Do(func() {
 		var vals []c19Val
 		for _, t := range []int{0x10, 0x34, 0x35, 0x36, 0x00, 0xFF} {
-			for _, p := range []int{100, 200, 0, -1} {
+			for _, p := range []int{100, 200, 0, -1, -200} {
 				for _, ev := range []uint32{1, 2} {
 					for _, num := range []uint8{1, 2} {
 						for _, exp := range []uint8{1, 2} {
@@ -217,6 +227,8 @@ func c19EqGrid() *c19Grid {
 								v := c19Val{Type: t, Event: ev, HasPTS: p >= 0, Num: num, Exp: exp, Sub: sub[0] == 1, SubNum: sub[1], SubExp: sub[2]}
 								if p >= 0 {
 									v.PTS = uint64(p)
+								} else if p < -1 {
+									v.PTS = uint64(-p)
 								}
 								vals = append(vals, v)
 							}
@@ -467,7 +479,7 @@ func init() {
 		Scenarios: []engine.ScenarioRunner{
 			&engine.Enum[c19TypeCase]{
 				Name: "closing-table",
-				Rule: "case = incoming type (all 256); Check evaluates CanClose of its 54 grid descriptors (event {1,2} x PTS {100,200,none} x (num,exp) {(1,1),(1,2),(2,1)} x sub-segment {absent,(1,1),(1,2)}) against all 13824 grid descriptors of all 256 open types, i.e. every value of (type, type, event-equal, PTS-equal, num==expected) and of the fields the relation must NOT depend on; plus IsIn/IsOut of the type; repeated for 8 (incoming, open) realisations: created x moved between signals, signal time carried as pts_time + pts_adjustment 100 (decoded from a reference section where the value is encodable) on either or both sides, and descriptors that got their type by SetTypeID only after having answered CanClose/Equal/IsIn/IsOut under another rule-bearing type (from 0x10 and from 0x35) on either side",
+				Rule: "case = incoming type (all 256); Check evaluates CanClose of its 54 grid descriptors (event {1,2} x PTS {100,200,none,none in the command but PTS() 200 through the adjustment} x (num,exp) {(1,1),(1,2),(2,1)} x sub-segment {absent,(1,1),(1,2)}) against all 13824 grid descriptors of all 256 open types, i.e. every value of (type, type, event-equal, PTS-equal, num==expected) and of the fields the relation must NOT depend on; plus IsIn/IsOut of the type; repeated for 8 (incoming, open) realisations: created x moved between signals, signal time carried as pts_time + pts_adjustment 100 (decoded from a reference section where the value is encodable) on either or both sides, and descriptors that got their type by SetTypeID only after having answered CanClose/Equal/IsIn/IsOut under another rule-bearing type (from 0x10 and from 0x35) on either side",
 				Gen: func(r *engine.Run, emit func(c19TypeCase)) {
 					for t := 0; t < 256; t++ {
 						emit(c19TypeCase{t})
@@ -501,7 +513,7 @@ func init() {
 			},
 			&engine.Enum[c19EqCase]{
 				Name: "equality",
-				Rule: "case = one descriptor of the 768-element equality grid (6 types x PTS {100,200,0,none} x event {1,2} x num {1,2} x expected {1,2} x sub-segment {absent,(1,1),(1,2),(2,2)}); Check compares it with every descriptor of four independent object copies of the grid (moved between signals; signal time carried by a non-zero pts_adjustment; retyped after queries from 0x10 / from 0x35) (symmetry, definition, reflexivity iff PTS), checks transitivity through every equal element and congruence against all 13824 descriptors of the closing grid in both argument positions",
+				Rule: "case = one descriptor of the 768-element equality grid (6 types x PTS {100,200,0,none,none in the command but PTS() 200} x event {1,2} x num {1,2} x expected {1,2} x sub-segment {absent,(1,1),(1,2),(2,2)}); Check compares it with every descriptor of four independent object copies of the grid (moved between signals; signal time carried by a non-zero pts_adjustment; retyped after queries from 0x10 / from 0x35) (symmetry, definition, reflexivity iff PTS), checks transitivity through every equal element and congruence against all 13824 descriptors of the closing grid in both argument positions",
 				Gen: func(r *engine.Run, emit func(c19EqCase)) {
 					for i := range c19EqGrid().vals {
 						emit(c19EqCase{i})
